@@ -117,6 +117,11 @@ class Sup:
             return False
         return True
 
+    def penv(self):
+        """environment of a confirmation run: 4x patience normally; in the capped mode (a source fact is broken, ~3 min in all)
+        a plain second run -- the verdicts are state-based either way"""
+        return {"C03_PATIENCE": "1" if self.tight else "4"}
+
     def patient(self):
         """is a 4x-patience second opinion allowed?"""
         return not self.hang_confirmed and self.left() > 30
@@ -201,7 +206,7 @@ def stress(ctx, exe, launch, cycles, seed, inject, budget_ms):
         ctx.log("stress %s inject=%d: %s -- re-running this configuration with 4x patience"
                 % (launch, inject, (out.strip().split("\n") or ["no output"])[0][:200]))
         first = out
-        rc, out, err, m = stress_once(ctx, exe, launch, cycles, seed, inject, budget_ms, env=PATIENT)
+        rc, out, err, m = stress_once(ctx, exe, launch, cycles, seed, inject, budget_ms, env=ctx.sup.penv())
         ctx.cov.setdefault("stress_reruns", []).append({"config": cfg, "first": first[-400:], "second": out[-400:]})
     if not m and ctx.sup.killed():
         return None
@@ -314,10 +319,13 @@ def tight_family(ctx, exe, boosted):
         first = m.group(0) if m else out.strip()[-400:]
         if suspicious and ctx.sup.patient():
             ctx.log("tight-cycle stress %s/%d: %s -- confirming on a second run (4x patience, 2x budget)" % (method, n, first[:260]))
-            rc, out, m2 = tight_once(ctx, exe, method, n, 10 ** 8, budget * 2, env=PATIENT)
+            rc, out, m2 = tight_once(ctx, exe, method, n, 10 ** 8, budget * 2, env=ctx.sup.penv())
             ctx.cov.setdefault("stress_reruns", []).append({"config": cfg, "first": first, "second": m2.group(0) if m2 else out.strip()[-400:]})
             if ctx.sup.killed():
                 continue
+            if m and int(m.group(12)) > 0 and not (m2 and int(m2.group(12)) > 0) and not (m2 and int(m2.group(6)) > 0):
+                ctx.broken.append("tight-cycle stress %s/%d: a lost wake-up (loop thread blocked after start() returned) was seen in one run (%s) "
+                                  "but not in the confirmation run" % (method, n, first))
             if m and int(m.group(6)) > 0 and not (m2 and int(m2.group(6)) > 0):
                 ctx.broken.append("tight-cycle stress %s/%d: the body counter moved after stop() had returned in one run (%s) but not in the "
                                   "confirmation run" % (method, n, first))
@@ -343,9 +351,13 @@ def tight_family(ctx, exe, boosted):
                           % (method, n, m.group(7), m.group(8), m.group(9), m.group(11), m.group(10)),
                           dict(cfg, observed=m.group(0), first_run=first, required=ORACLE_TEXT["stop_safe"][1]))
         elif lost:
-            ctx.violation("tight start/stop cycles with an empty body, %s launch, %d threads: after start() returned the loop thread stayed blocked "
-                          "(kernel state S, no CPU time) and the counter did not advance, %d time(s); confirmed on a second run" % (method, n, lost),
-                          dict(cfg, observed=m.group(0), first_run=first, required=ORACLE_TEXT["start_progress"][1]))
+            x = re.search(r"back_to_back_checked=(\d+) first_lost_cycle=(-?\d+) lost_after_back_to_back=(\d) counter_stuck_at=(\d+)", out)
+            detail = ("in cycle %s (%s), body counter stuck at %s" % (x.group(2), "start() called right after stop() returned, no pause"
+                                                                      if x.group(3) == "1" else "paced cycle", x.group(4))) if x else ""
+            ctx.violation("tight start/stop cycles with an empty (counter-only) body, %s launch, tasking system of %d threads: LOST WAKE-UP -- after "
+                          "start() returned the counter did not advance and the loop thread stayed blocked in the kernel (state S, CPU time not "
+                          "advancing, 50 consecutive samples) %s; confirmed on a second run" % (method, n, detail),
+                          dict(cfg, observed=m.group(0) + (" " + x.group(0) if x else ""), first_run=first, required=ORACLE_TEXT["start_progress"][1]))
     ctx.cov["stress_tight"] = rows
 
 
@@ -370,9 +382,10 @@ def long_family(ctx, exe):
             continue
         cfg = {"mode": "stress-long", "method": method, "nthreads": n, "max_body_us": max_us, "rerun": "%s %s" % (exe, " ".join(args))}
         first = m.group(0) if m else out.strip()[-400:]
-        if ((not m) or int(m.group(7)) > 0 or int(m.group(9)) > 0) and ctx.sup.patient():
+        lostm = re.search(r"lost_wakeups=(\d+) lost_at_body_us=(-?\d+)", out)
+        if ((not m) or int(m.group(7)) > 0 or int(m.group(9)) > 0 or (lostm and int(lostm.group(1)) > 0)) and ctx.sup.patient():
             ctx.log("long-body stress %s/%d: %s -- confirming on a second run" % (method, n, first[:300]))
-            rc, out, err = ctx.run_exe(exe, args, timeout=BIG, env=PATIENT)
+            rc, out, err = ctx.run_exe(exe, args, timeout=BIG, env=ctx.sup.penv())
             m2 = re.search(LONG_RE, out)
             ctx.cov.setdefault("stress_reruns", []).append({"config": cfg, "first": first, "second": m2.group(0) if m2 else out.strip()[-400:]})
             if ctx.sup.killed():
@@ -395,6 +408,13 @@ def long_family(ctx, exe):
                      "dtor_returned_while_inside": int(m.group(9)), "wall_ms": int(m.group(13))})
         if int(m.group(6)) >= 4:
             ctx.nontriv("long %s %d" % (method, n))
+        lostm = re.search(r"lost_wakeups=(\d+) lost_at_body_us=(-?\d+)", out)
+        if lostm and int(lostm.group(1)) > 0 and not (int(m.group(7)) or int(m.group(9))):
+            ctx.violation("%s launch, tasking system of %d threads, body of %s us: LOST WAKE-UP -- after start() returned the body never began "
+                          "and the loop thread stayed blocked in the kernel (state S, no CPU time, 50 consecutive samples); confirmed on a second run"
+                          % (method, n, lostm.group(2)),
+                          dict(cfg, body_duration_us=int(lostm.group(2)), observed=m.group(0) + " " + lostm.group(0), first_run=first,
+                               required=ORACLE_TEXT["start_progress"][1]))
         if int(m.group(7)) or int(m.group(9)):
             which = "stop()" if int(m.group(7)) else "~AsyncLoop()"
             ctx.violation("%s launch, tasking system of %d threads, body invocation of %s us in flight: %s; the body left %s us AFTER the call "
@@ -408,8 +428,8 @@ def long_family(ctx, exe):
 def stress_stage(ctx, exe, exe_st, boosted):
     """the unforced families.  boosted (a source fact is broken): larger boxes, in total <= 60 s"""
     if exe_st:
-        long_family(ctx, exe_st)
         tight_family(ctx, exe_st, boosted)
+        long_family(ctx, exe_st)
     st = []
     n_plain, n_inj = ctx.pick(20000, 200000), ctx.pick(4000, 30000)
     budget = ctx.pick(5000, 60000)    # ms per configuration (time box; the number of cycles done is reported)
@@ -641,8 +661,9 @@ def run(ctx):
         ctx.log("harness.cpp does not build against this tree -- forced schedules impossible; running the public-interface stress family")
         ctx.cov["forced"] = "NOT POSSIBLE: harness/C03/harness.cpp (private state, hooks) does not compile against this tree"
         if exe_st:
-            long_family(ctx, exe_st)
+            ctx.sup.tighten()
             tight_family(ctx, exe_st, True)
+            long_family(ctx, exe_st)
         return
     if boosted:
         # the correspondence is known to be broken; what is left to do is to find a concrete failing input: the cheap,
